@@ -6,7 +6,7 @@
     bookkeeping or the existence of a result. *)
 From PegV Require Import Base.Tac Spec.Syntax Spec.Peg Spec.WF Model.Machine Model.SkipCheck Model.Analyses Model.Optimize Model.Gen
   Model.Emit Model.SEmit Model.Exec Proofs.PegFacts Proofs.OptSound Proofs.OptSwok Proofs.Top Proofs.OptTop Proofs.SEmitFile Proofs.SEmitOpt
-  Proofs.EmitUse Proofs.CountReach Proofs.DeepDefault Proofs.CountInline Proofs.ExecDet Proofs.OptClosed Proofs.Forest.
+  Proofs.EmitUse Proofs.CountReach Proofs.DeepDefault Proofs.CountInline Proofs.ExecDet Proofs.OptClosed Proofs.Forest Spec.Tokens Model.Runtime Proofs.RuntimeProofs Proofs.Sim.
 Local Open Scope nat_scope.
 
 Lemma optimize_length g : length (optimize g) = length g.
@@ -170,3 +170,108 @@ Proof.
            (deep_table_all g inline Ha Hc) (slot_ok_start g inline) (reached_start g Hne) H out Hx).
 Qed.
 Print Assumptions generated_parser_error_token.
+
+(** * Tokens, actions and the syntax tree of an accepted input (C03, C04, C05)
+
+    When the grammar as written accepts a prefix with derivation forest [f], whatever the option combination the tokens
+    the generated parser has recorded are the post-order of [f]: the last one is the first rule over the consumed prefix,
+    all lie within the input; Execute() over them runs the actions of the derivation in order, each with the most
+    recently completed capture; AST() is the derivation tree without its empty nodes and the printers walk it in
+    pre-order. *)
+Theorem generated_parser_tokens_actions_tree g tab rank :
+  wf_b g tab rank = true -> good_grammar g ->
+  (forall r b, nth_error g r = Some (RBody b) -> ranges_ok b = true) ->
+  grammar_alt2 g -> closed_names g ->
+  forall ptx buf penv, good_buf buf -> valid_buf buf ->
+  forall memo inline sw rb st0,
+    nth_error g 0 = Some rb -> rb <> RNil ->
+    exists n res evs, peg_parse g ptx buf penv n 0 = Some (res, evs) /\
+      forall p f, res = Succ p f ->
+      forall out, xcall buf penv (mk_opts true memo inline (tree_of sw g)) (gen_fn (tree_of sw g) ptx inline) 0 (reset st0) out ->
+        exists st' kids, out = Ret true st' /\ pos st' = p /\ f = [Node 0 0 p kids] /\
+          live st' = Syntax.flat kids ++ [(0, (0, p))] /\
+          Forall (inb 0 (length buf)) (live st') /\
+          execute g ptx (live st') (0, 0) = fst (trace_forest g ptx f (0, 0)) /\
+          ast (live st') = (if 0 =? p then None else Some (Rose (0, (0, p)) (prune_forest kids))) /\
+          print_tree (live st') = (if 0 =? p then [] else preorder 0 (Rose (0, (0, p)) (prune_forest kids))).
+Proof.
+  intros Hwf Hg Hro Ha Hc ptx buf penv Hbuf Hvalid memo inline sw rb st0 Hr Hn.
+  destruct (generated_parser_correct g tab rank Hwf Hg Hro Ha Hc ptx buf penv Hbuf Hvalid memo inline sw rb st0 Hr Hn)
+    as (n & res & evs & b & st' & H & _ & Hu & K).
+  exists n, res, evs. split; [exact H|]. intros p f -> out Hx. rewrite (Hu _ Hx). destruct K as (-> & Hp & L).
+  (* the facts about [f] come from the semantics alone: read them off the machine of the tree as written *)
+  pose proof (plain_good_switches g Hro) as Hs.
+  destruct (c03_tokens g ptx buf penv Hg Hbuf Hs true false n 0 zero_state p f evs (slot_ok_start g false) H) as (s3 & kids & R3 & L3 & Hf & L3' & F3).
+  destruct (c04_execute g ptx buf penv Hg Hbuf Hs true false n 0 zero_state p f evs (slot_ok_start g false) H) as (s4 & R4 & E4).
+  destruct (c05_ast g ptx buf penv Hg Hbuf Hs true false n 0 zero_state p f evs (slot_ok_start g false) H) as (s5 & kids5 & R5 & Hf5 & A5 & P5).
+  assert (s4 = s3) by congruence. assert (s5 = s3) by congruence. subst s4 s5.
+  assert (kids5 = kids) by (rewrite Hf in Hf5; inv Hf5; reflexivity). subst kids5.
+  exists st', kids. split; [reflexivity|]. split; [exact Hp|]. split; [exact Hf|].
+  rewrite L, <- L3. repeat split; assumption.
+Qed.
+Print Assumptions generated_parser_tokens_actions_tree.
+
+(** the three parts, as the properties state them *)
+Corollary generated_parser_tokens g tab rank :
+  wf_b g tab rank = true -> good_grammar g ->
+  (forall r b, nth_error g r = Some (RBody b) -> ranges_ok b = true) ->
+  grammar_alt2 g -> closed_names g ->
+  forall ptx buf penv, good_buf buf -> valid_buf buf ->
+  forall memo inline sw rb st0,
+    nth_error g 0 = Some rb -> rb <> RNil ->
+    exists n res evs, peg_parse g ptx buf penv n 0 = Some (res, evs) /\
+      forall p f, res = Succ p f ->
+      forall out, xcall buf penv (mk_opts true memo inline (tree_of sw g)) (gen_fn (tree_of sw g) ptx inline) 0 (reset st0) out ->
+        exists st' kids, out = Ret true st' /\ pos st' = p /\ live st' = Syntax.flat f /\ f = [Node 0 0 p kids] /\
+          live st' = Syntax.flat kids ++ [(0, (0, p))] /\ Forall (inb 0 (length buf)) (live st').
+Proof.
+  intros Hwf Hg Hro Ha Hc ptx buf penv Hbuf Hvalid memo inline sw rb st0 Hr Hn.
+  destruct (generated_parser_tokens_actions_tree g tab rank Hwf Hg Hro Ha Hc ptx buf penv Hbuf Hvalid memo inline sw rb st0 Hr Hn)
+    as (n & res & evs & H & K).
+  exists n, res, evs. split; [exact H|]. intros p f E out Hx.
+  destruct (K p f E out Hx) as (st' & kids & E1 & E2 & E3 & E4 & E5 & E6 & E7 & E8).
+  exists st', kids. repeat split; try assumption. rewrite E4, E3. symmetry. apply flat_node.
+Qed.
+
+Corollary generated_parser_actions g tab rank :
+  wf_b g tab rank = true -> good_grammar g ->
+  (forall r b, nth_error g r = Some (RBody b) -> ranges_ok b = true) ->
+  grammar_alt2 g -> closed_names g ->
+  forall ptx buf penv, good_buf buf -> valid_buf buf ->
+  forall memo inline sw rb st0,
+    nth_error g 0 = Some rb -> rb <> RNil ->
+    exists n res evs, peg_parse g ptx buf penv n 0 = Some (res, evs) /\
+      forall p f, res = Succ p f ->
+      forall out, xcall buf penv (mk_opts true memo inline (tree_of sw g)) (gen_fn (tree_of sw g) ptx inline) 0 (reset st0) out ->
+        exists st', out = Ret true st' /\ execute g ptx (live st') (0, 0) = fst (trace_forest g ptx f (0, 0)).
+Proof.
+  intros Hwf Hg Hro Ha Hc ptx buf penv Hbuf Hvalid memo inline sw rb st0 Hr Hn.
+  destruct (generated_parser_tokens_actions_tree g tab rank Hwf Hg Hro Ha Hc ptx buf penv Hbuf Hvalid memo inline sw rb st0 Hr Hn)
+    as (n & res & evs & H & K).
+  exists n, res, evs. split; [exact H|]. intros p f E out Hx.
+  destruct (K p f E out Hx) as (st' & kids & E1 & E2 & E3 & E4 & E5 & E6 & E7 & E8).
+  exists st'. split; assumption.
+Qed.
+
+Corollary generated_parser_ast g tab rank :
+  wf_b g tab rank = true -> good_grammar g ->
+  (forall r b, nth_error g r = Some (RBody b) -> ranges_ok b = true) ->
+  grammar_alt2 g -> closed_names g ->
+  forall ptx buf penv, good_buf buf -> valid_buf buf ->
+  forall memo inline sw rb st0,
+    nth_error g 0 = Some rb -> rb <> RNil ->
+    exists n res evs, peg_parse g ptx buf penv n 0 = Some (res, evs) /\
+      forall p f, res = Succ p f ->
+      forall out, xcall buf penv (mk_opts true memo inline (tree_of sw g)) (gen_fn (tree_of sw g) ptx inline) 0 (reset st0) out ->
+        exists st' kids, out = Ret true st' /\ f = [Node 0 0 p kids] /\
+          ast (live st') = (if 0 =? p then None else Some (Rose (0, (0, p)) (prune_forest kids))) /\
+          print_tree (live st') = (if 0 =? p then [] else preorder 0 (Rose (0, (0, p)) (prune_forest kids))).
+Proof.
+  intros Hwf Hg Hro Ha Hc ptx buf penv Hbuf Hvalid memo inline sw rb st0 Hr Hn.
+  destruct (generated_parser_tokens_actions_tree g tab rank Hwf Hg Hro Ha Hc ptx buf penv Hbuf Hvalid memo inline sw rb st0 Hr Hn)
+    as (n & res & evs & H & K).
+  exists n, res, evs. split; [exact H|]. intros p f E out Hx.
+  destruct (K p f E out Hx) as (st' & kids & E1 & E2 & E3 & E4 & E5 & E6 & E7 & E8).
+  exists st', kids. repeat split; assumption.
+Qed.
+Print Assumptions generated_parser_ast.
